@@ -1160,7 +1160,7 @@ def r_disk_copy(ctx):
     ctx.analysed(fo.qual)
 
     def seg2(run, a, k, n, f):
-        return Obj("multiprocessing.shared_memory.SharedMemory", {"buf": [1, 2, 3, 4, 5, 6], "_name": "n"}, name="SEG")
+        return Obj("multiprocessing.shared_memory.SharedMemory", {"buf": [1, 2, 3, 4, 5, 6], "_name": "n", "size": 6, "name": "n"}, name="SEG")
     ip = Interp(repo, call_models={"multiprocessing.shared_memory.SharedMemory": seg2})
     paths = ip.explore(fo, env={"self.root": Obj("T", {"name": "/spill"}, name="root")}, args={"shmid": "s1", "callback": ModelFn("cb", lambda run, a, k, n, f: None)})
     ctx.evals(len(paths))
